@@ -98,13 +98,90 @@ def run(tier):
     oc = Outcome(PROP)
     oc.rule = ("shipped class diagrams (TestClassDiagram, ProtocolStack) and projects derived from them by 0-4 SQL-level edits (rename class, rename package, remove class from the diagram, move a class out of its package, re-type an attribute to a leaf type of - mostly - another package, re-type an operation's return to a pointer / reference / value of another type, package names that end or begin alike), C++ and C# back ends, "
                "namespace folders on/off, with/without export macro: reported file list == Uml.fileList of the real parsed element list; wrapper lines == Uml.nsBegin/nsEnd; C++: declaration/definition pairing per concrete class, "
-               "overrides of realised pure-virtual interfaces, g++ -fsyntax-only per file; non-trivial = every case")
+               "overrides of realised pure-virtual interfaces, g++ -fsyntax-only per file; plus synthesised class diagrams built from kojen's own objects (umlsynth, well-formed for C++): realised interfaces, interfaces extending interfaces, "
+               "generalisation, associations / aggregations / compositions with multiplicities, getters, setters, operations with in / inout / out parameters, static / const / virtual, read-only attributes, classes outside any package - same comparisons, the compile oracle always applies; non-trivial = every case")
     oc.assumptions = TRUSTED
     r = rng(PROP)
     runner = genlib.Runner()
     reqs, pend = [], []
     ireqs, ipend = [], []
     treqs, tpend = [], []
+    def after_generation(model, info, ops, out, ret, cd, elems, nss):
+        """everything that is compared on one generated tree"""
+        backend, folders, diagram = model["backend"], model["ns_folders"], model["diagram"]
+        reqs.append(dict(cmd="uml", templates=templates_of(backend), folders=folders, diagram=diagram, elems=elems, namespaces=nss))
+        if backend == "uml":
+            # function level: the include block of every header vs Model/UmlInc
+            import sys
+            L = sys.modules["kojen.LanguageCPP"].LanguageCPP()
+            names = [c.NAME for c in cd.classes.values()]
+            for c in cd.classes.values():
+                try:
+                    with common.quiet():
+                        types = sorted(c.GetNotForwardDeclarableNonPrimitiveTypesLinkedToThis())
+                        real = L.GetNotForwardDeclarableHeaderIncludes(c, folders, True, False)
+                except Exception as e:      # noqa
+                    oc.corr_failures.append(dict(what="include computation raised %s: %s" % (type(e).__name__, e), cls=c.NAME, **info))
+                    continue
+                ireqs.append(dict(cmd="umlinc", folders=folders, ns=c.NAMESPACE, types=types, names=names))
+                ipend.append((dict(info, cls=c.NAME, types=types), real))
+                # the two type sets themselves vs Model/UmlTypes
+                V = sys.modules["kojen.vppclassdiagram"]
+                try:
+                    with common.quiet():
+                        real_fwd = sorted(c.GetForwardDeclarableNonPrimitiveTypesLinkedToThis())
+                except Exception as e:      # noqa
+                    oc.corr_failures.append(dict(what="forward-declarable types raised %s: %s" % (type(e).__name__, e), cls=c.NAME, **info))
+                    continue
+                bases = [i.CLASS_FROM for i in cd.inheritence.values() if i.CLASS_TO_ID.find(c.ID) > -1]
+                attrs = [[a.TYPE, a.TYPE_MODIFIER] for a in c.ATTRIBUTES]
+                opsj = [dict(params=[[pa["type"], pa["modifier"]] for pa in o.PARAMETERS], ret=[o.RETURN_TYPE, o.RETURN_TYPE_MODIFIER]) for o in c.OPERATIONS]
+                comps, ptrs_ = [], []
+                for a in cd.associations.values():
+                    ty = a.TYPE.lower()
+                    if "composition" in ty and a.CLASS_FROM_ID == c.ID:
+                        comps.append(a.CLASS_TO)
+                    if "association" in ty:
+                        if a.CLASS_FROM_ID == c.ID:
+                            ptrs_.append(a.CLASS_TO)
+                        elif a.CLASS_TO_ID == c.ID:
+                            ptrs_.append(a.CLASS_FROM)
+                    if "aggregation" in ty and a.CLASS_FROM_ID == c.ID:
+                        ptrs_.append(a.CLASS_TO)
+                alltypes = set(bases) | {x[0] for x in attrs} | {x[0] for o in opsj for x in o["params"] + [o["ret"]]} | set(comps) | set(ptrs_)
+                allmods = {x[1] for x in attrs} | {x[1] for o in opsj for x in o["params"] + [o["ret"]]}
+                treqs.append(dict(cmd="umltypes", bases=bases, attrs=attrs, ops=opsj, compositions=comps, pointers=ptrs_,
+                                  prims=sorted(t for t in alltypes if V.IsTypePrimitive(t)), ptrs=sorted(m for m in allmods if V.IsTypePointerOrRef(m)),
+                                  enums=sorted(t for t in alltypes if c.IsEnumerationOfDiagram(t))))
+                tpend.append((dict(info, cls=c.NAME), types, real_fwd))
+                oc.stat("include_blocks_compared")
+                if any("::" in t and t.split("::")[-1] in "".join(t.split("::")[:-1]) for t in types):
+                    oc.stat("types_whose_class_name_occurs_in_their_namespace")
+        texts = {rel: data.decode("utf-8", "replace") for rel, data in e2e.snapshot(out).items()}
+        pend.append((info, list(ret), sorted(texts), elems, texts))
+        if backend == "uml":
+            # a class removed from the diagram may still be the type of an attribute / parameter elsewhere: the derived
+            # model then has dangling types and is not expected to compile; pairing and placement are still checked
+            removed = any(o[0] == "remove-class" for o in ops)
+            if removed:
+                oc.stat("compile_oracle_skipped_dangling_types")
+            # recorded finding: an element outside any package has NAMESPACE == '' and the generator strips
+            # NAMESPACE + '::' from every referenced type (all '::' vanish): includes and base-class names break
+            unpackaged = any(e[1] == "" for e in elems)
+            if unpackaged:
+                oc.stat("models_with_an_element_outside_any_package")
+            bad = cpp_checks(oc, out, cd, info, compile_ok=(diagram != "ProtocolStack" and not removed))
+            if diagram == "ProtocolStack":
+                import findings
+                # the recorded witness: the interface's operation named like the class, and its static abstract operation
+                only_known = bool(bad) and all(("constructors cannot be declared" in str(b[1])) or ("initializer specified for static member function" in str(b[1])) for b in bad)
+                if removed:
+                    pass
+                elif bad and only_known:
+                    findings.record(oc, PROP, ILL_FORMED, True, dict(files=[b[0] for b in bad][:3]))
+                elif bad:
+                    oc.violations.append(dict(what="generated C++ rejected by g++ beyond the recorded ILayer operations: %s" % bad[:2], **info))
+
     n = 100 if thorough else 28
     with scratch() as base:
         for i in range(n):
@@ -131,80 +208,42 @@ def run(tier):
             oc.stat("folders_%s" % folders)
             for o in ops:
                 oc.stat("edit_" + o[0])
-            reqs.append(dict(cmd="uml", templates=templates_of(backend), folders=folders, diagram=diagram, elems=elems, namespaces=nss))
-            if backend == "uml":
-                # function level: the include block of every header vs Model/UmlInc
-                import sys
-                L = sys.modules["kojen.LanguageCPP"].LanguageCPP()
-                names = [c.NAME for c in cd.classes.values()]
-                for c in cd.classes.values():
-                    try:
-                        with common.quiet():
-                            types = sorted(c.GetNotForwardDeclarableNonPrimitiveTypesLinkedToThis())
-                            real = L.GetNotForwardDeclarableHeaderIncludes(c, folders, True, False)
-                    except Exception as e:      # noqa
-                        oc.corr_failures.append(dict(what="include computation raised %s: %s" % (type(e).__name__, e), cls=c.NAME, **info))
-                        continue
-                    ireqs.append(dict(cmd="umlinc", folders=folders, ns=c.NAMESPACE, types=types, names=names))
-                    ipend.append((dict(info, cls=c.NAME, types=types), real))
-                    # the two type sets themselves vs Model/UmlTypes
-                    V = sys.modules["kojen.vppclassdiagram"]
-                    try:
-                        with common.quiet():
-                            real_fwd = sorted(c.GetForwardDeclarableNonPrimitiveTypesLinkedToThis())
-                    except Exception as e:      # noqa
-                        oc.corr_failures.append(dict(what="forward-declarable types raised %s: %s" % (type(e).__name__, e), cls=c.NAME, **info))
-                        continue
-                    bases = [i.CLASS_FROM for i in cd.inheritence.values() if i.CLASS_TO_ID.find(c.ID) > -1]
-                    attrs = [[a.TYPE, a.TYPE_MODIFIER] for a in c.ATTRIBUTES]
-                    opsj = [dict(params=[[pa["type"], pa["modifier"]] for pa in o.PARAMETERS], ret=[o.RETURN_TYPE, o.RETURN_TYPE_MODIFIER]) for o in c.OPERATIONS]
-                    comps, ptrs_ = [], []
-                    for a in cd.associations.values():
-                        ty = a.TYPE.lower()
-                        if "composition" in ty and a.CLASS_FROM_ID == c.ID:
-                            comps.append(a.CLASS_TO)
-                        if "association" in ty:
-                            if a.CLASS_FROM_ID == c.ID:
-                                ptrs_.append(a.CLASS_TO)
-                            elif a.CLASS_TO_ID == c.ID:
-                                ptrs_.append(a.CLASS_FROM)
-                        if "aggregation" in ty and a.CLASS_FROM_ID == c.ID:
-                            ptrs_.append(a.CLASS_TO)
-                    alltypes = set(bases) | {x[0] for x in attrs} | {x[0] for o in opsj for x in o["params"] + [o["ret"]]} | set(comps) | set(ptrs_)
-                    allmods = {x[1] for x in attrs} | {x[1] for o in opsj for x in o["params"] + [o["ret"]]}
-                    treqs.append(dict(cmd="umltypes", bases=bases, attrs=attrs, ops=opsj, compositions=comps, pointers=ptrs_,
-                                      prims=sorted(t for t in alltypes if V.IsTypePrimitive(t)), ptrs=sorted(m for m in allmods if V.IsTypePointerOrRef(m)),
-                                      enums=sorted(t for t in alltypes if c.IsEnumerationOfDiagram(t))))
-                    tpend.append((dict(info, cls=c.NAME), types, real_fwd))
-                    oc.stat("include_blocks_compared")
-                    if any("::" in t and t.split("::")[-1] in "".join(t.split("::")[:-1]) for t in types):
-                        oc.stat("types_whose_class_name_occurs_in_their_namespace")
-            texts = {rel: data.decode("utf-8", "replace") for rel, data in e2e.snapshot(out).items()}
-            pend.append((info, list(ret), sorted(texts), elems, texts))
-            if backend == "uml":
-                # a class removed from the diagram may still be the type of an attribute / parameter elsewhere: the derived
-                # model then has dangling types and is not expected to compile; pairing and placement are still checked
-                removed = any(o[0] == "remove-class" for o in ops)
-                if removed:
-                    oc.stat("compile_oracle_skipped_dangling_types")
-                # recorded finding: an element outside any package has NAMESPACE == '' and the generator strips
-                # NAMESPACE + '::' from every referenced type (all '::' vanish): includes and base-class names break
-                unpackaged = any(e[1] == "" for e in elems)
-                if unpackaged:
-                    oc.stat("models_with_an_element_outside_any_package")
-                bad = cpp_checks(oc, out, cd, info, compile_ok=(diagram != "ProtocolStack" and not removed))
-                if diagram == "ProtocolStack":
-                    import findings
-                    # the recorded witness: the interface's operation named like the class, and its static abstract operation
-                    only_known = bool(bad) and all(("constructors cannot be declared" in str(b[1])) or ("initializer specified for static member function" in str(b[1])) for b in bad)
-                    if removed:
-                        pass
-                    elif bad and only_known:
-                        findings.record(oc, PROP, ILL_FORMED, True, dict(files=[b[0] for b in bad][:3]))
-                    elif bad:
-                        oc.violations.append(dict(what="generated C++ rejected by g++ beyond the recorded ILayer operations: %s" % bad[:2], **info))
+            after_generation(model, info, ops, out, ret, cd, elems, nss)
             shutil_rm(out)
             os.remove(proj)
+    # synthesised class diagrams (kojen's own objects, see umlsynth): realised interfaces, interfaces extending interfaces,
+    # generalisation, associations / aggregations / compositions with multiplicities, getters and setters, operations with
+    # in / inout / out parameters, static / const / virtual, read-only attributes, classes outside any package
+    import umlsynth
+    runner = genlib.Runner()        # (parsed_elems re-imports kojen: the runner and sys.modules must name the same modules again)
+    with scratch() as base:
+        for i in range(70 if thorough else 18):
+            spec = umlsynth.rand_spec(r, wellformed=True, relations=r.random() < 0.85, focus="packed" if i % 3 == 0 else None)
+            if any(c.get("packed") for c in spec["classes"]):
+                oc.stat("synth_models_with_packed_struct")
+            backend = r.choice(["uml", "uml", "umlcs"])
+            model = dict(kind="uml", backend=backend, project=genlib.BLOB, diagram=spec["diagram"], ns_folders=r.random() < 0.5,
+                         dclspc=r.choice(["", "MY_API"]), synth=spec)
+            info = dict(model=model, edits=[["synthesised"]])
+            out = os.path.join(base, "s%d" % i)
+            try:
+                ret, _ = runner.generate(model, out)
+                with quiet():
+                    cd = umlsynth.build(spec)
+                    nss = list(cd.GetNamespaceDependencies().keys())
+                elems = [[c.NAME, c.NAMESPACE, bool(c.IS_ENUM), bool(c.IS_STRUCT), bool(c.AUTOGEN), bool(c.PURE_VIRTUAL_INTERFACE)] for c in cd.classes.values()]
+            except Exception as e:      # noqa
+                oc.violations.append(dict(what="generation raised %s: %s" % (type(e).__name__, e), **info))
+                break
+            oc.case(("umlsynth", backend, model["ns_folders"], repr(spec)), nontrivial=True)
+            oc.stat("backend_" + backend)
+            oc.stat("diagram_synthesised")
+            oc.stat("synth_realisations", sum(1 for h in spec["inherits"] if h["realization"]))
+            oc.stat("synth_generalisations", sum(1 for h in spec["inherits"] if not h["realization"]))
+            for a_ in spec["assocs"]:
+                oc.stat("synth_" + a_["type"].lower())
+            after_generation(model, info, [], out, ret, cd, elems, nss)
+            shutil_rm(out)
     for (info, real_nf, real_fwd), a in zip(tpend, lean_batch(treqs)):
         oc.traces_validated += 1
         if "error" in a:
